@@ -21,7 +21,7 @@ import vf
 PROP = "C19"
 MATCHERS = {}
 XSS = ("-Xss512m",)
-BIG = 1000000
+BIG = 1 << 30
 
 # (part name, cfg, description of the scope)
 QUICK = [
